@@ -103,6 +103,7 @@ def euler_vars(ctx, rng, idx):
         else:
             model = euler.euler1d(gamma=gam)
     n = mesh.ncell
+    gen.maybe_decoy(rng)
     rho, V, p = _euler_states(rng, n, gam, kind == "euler2d")
     ctx.describe(model=kind, gamma=gam, ncell=n, rho=rho[:4], V=np.asarray(V)[..., :4], p=p[:4])
     prim = [rho, V, p]
@@ -145,6 +146,7 @@ def other_models(ctx, rng, idx):
     if k == 0:
         g = float(rng.choice([9.81, 1.0, rng.uniform(0.5, 20)]))
         model = shw.shallowwater1d(g=g)
+        gen.maybe_decoy(rng)
         h = 10 ** rng.uniform(-6, 6, n); u = rng.uniform(-10, 10, n) * np.sqrt(g * h)
         ctx.describe(model="shallowwater", g=g, h=h[:4], u=u[:4])
         cons = model.prim2cons([h.copy(), u.copy()])
